@@ -89,7 +89,7 @@ func main() {
 	worker.Run(r, worker.Opts{Phase: "conc", Total: r.N(60, 600), Batch: r.N(5, 20), OnResult: tally})
 	if bin := os.Getenv("VERIF_RACE_BIN"); bin != "" {
 		raceDir, _ := os.MkdirTemp("", "verif-c12-race-")
-		worker.Run(r, worker.Opts{Phase: "conc-race", Total: r.N(24, 200), Batch: r.N(4, 10), Bin: bin, OnResult: tally,
+		worker.Run(r, worker.Opts{Phase: "conc-race", Total: r.N(12, 200), Batch: r.N(3, 10), Bin: bin, OnResult: tally,
 			Env: []string{"GORACE=halt_on_error=0 log_path=" + filepath.Join(raceDir, "race")}})
 		r.Set("race_reports_in_library", countRaceReports(raceDir, r))
 		os.RemoveAll(raceDir)
